@@ -71,10 +71,15 @@ def _vocab(it):
     g = it.ctx.ghost
     it.models[id(armed)] = ModelFn("armed", lambda it2, a, k: g.get("timers_armed", 0) == a[0])
     it.models[id(saves)] = ModelFn("saves", lambda it2, a, k: g.get("save_calls", 0) == a[0])
+    it.models[id(loop_was_cancelled)] = ModelFn("loop_was_cancelled", lambda it2, a, k: bool(g.get("cancel_delivered")))
     it.models[id(spawned_one_task)] = ModelFn("spawned_one_task", lambda it2, a, k: len([s for s in g.get("spawned", []) if s["kind"] == "task"]) == 1)
 
 
 def spawned_one_task():
+    return True
+
+
+def loop_was_cancelled():
     return True
 
 
@@ -132,7 +137,12 @@ class AsyncSchedule:
     # no failure of a save and no CancelledError may escape it (stop() awaits the cancelled task before its final
     # save; an exception out of that await would abort stop() before anything is saved: C14)
     raises = {}
-    ensures = {"task-spawned": lambda old, tasks, save, result: spawned_one_task() and tasks._cancel_save is not None}
+    ensures = {
+        "task-spawned": lambda old, tasks, save, result: spawned_one_task() and tasks._cancel_save is not None,
+        # the body below runs the spawned loop to its end: it may only come to an end because a cancellation was
+        # delivered (at the sleep, or at the executor await) - never because a save failed, whatever it failed with
+        "ends-only-when-cancelled": lambda old, tasks, save, result: loop_was_cancelled(),
+    }
 
 
 def run_schedule_and_loop(tasks, save):
